@@ -26,8 +26,8 @@ def main():
     if not ck.build():
         ck.finish()
     ck.check_props()
-    nmax = 5 if ck.quick else 6
-    seeds = 4 if ck.quick else 30
+    nmax = 6
+    seeds = 6 if ck.quick else 30
     bases = []
     for n in range(3, nmax + 1):
         for f in SU_FAMILIES:
